@@ -130,6 +130,50 @@ pub trait StrLike {
 impl StrLike for &String { open spec fn chars(&self) -> Seq<char> { (*self)@ } }
 impl StrLike for &str { open spec fn chars(&self) -> Seq<char> { (*self)@ } }
 
+// ---- functional reading primitives over the unread input -------------------
+pub open spec fn take_n(s: Seq<u8>, n: nat) -> Option<(Seq<u8>, Seq<u8>)> {
+    if s.len() >= n { Some((s.subrange(0, n as int), s.subrange(n as int, s.len() as int))) } else { None }
+}
+pub open spec fn r_u8(s: Seq<u8>) -> Option<(u8, Seq<u8>)> {
+    match take_n(s, 1) { Some((b, t)) => Some((b[0], t)), None => None }
+}
+pub open spec fn r_bool(s: Seq<u8>) -> Option<(bool, Seq<u8>)> {
+    match take_n(s, 1) { Some((b, t)) => Some((b[0] > 0, t)), None => None }
+}
+pub open spec fn r_u16(s: Seq<u8>) -> Option<(u16, Seq<u8>)> {
+    match take_n(s, 2) { Some((b, t)) => Some((de16(b), t)), None => None }
+}
+pub open spec fn r_u32(s: Seq<u8>) -> Option<(u32, Seq<u8>)> {
+    match take_n(s, 4) { Some((b, t)) => Some((de32(b), t)), None => None }
+}
+pub open spec fn r_u64(s: Seq<u8>) -> Option<(u64, Seq<u8>)> {
+    match take_n(s, 8) { Some((b, t)) => Some((de64(b), t)), None => None }
+}
+pub open spec fn r_i64(s: Seq<u8>) -> Option<(i64, Seq<u8>)> {
+    match take_n(s, 8) { Some((b, t)) => Some((de64(b) as i64, t)), None => None }
+}
+/// read_bytes: guard_size! (16 MiB) then read_exact
+pub open spec fn r_bytes(s: Seq<u8>, n: nat) -> Option<(Seq<u8>, Seq<u8>)> {
+    if n > MAX_BUFFER_SIZE { None } else { take_n(s, n) }
+}
+/// read_string: u32 length, guard_size!, read_exact, String::from_utf8
+pub open spec fn r_string(s: Seq<u8>) -> Option<(Seq<char>, Seq<u8>)> {
+    match r_u32(s) {
+        None => None,
+        Some((n, t)) => match r_bytes(t, n as nat) {
+            None => None,
+            Some((b, u)) => match utf8_dec(b) { None => None, Some(cs) => Some((cs, u)) },
+        },
+    }
+}
+
+pub broadcast proof fn lemma_take_n_concat(a: Seq<u8>, b: Seq<u8>)
+    ensures #[trigger] take_n(a + b, a.len()) == Some((a, b)),
+{
+    assert((a + b).subrange(0, a.len() as int) =~= a);
+    assert((a + b).subrange(a.len() as int, (a + b).len() as int) =~= b);
+}
+
 #[verifier::external_body]
 #[verifier::reject_recursive_types(R)]
 pub struct BinaryReader<R> { _r: core::marker::PhantomData<R> }
@@ -137,6 +181,12 @@ pub struct BinaryReader<R> { _r: core::marker::PhantomData<R> }
 impl<R> View for BinaryReader<R> {
     type V = Stream;
     uninterp spec fn view(&self) -> Stream;
+}
+
+/// effect of a successful read that leaves `t` unread
+pub open spec fn rd(old: Stream, new: Stream, t: Seq<u8>) -> bool {
+    new.bytes == old.bytes && new.wf() && new.rest() == t && new.pos == old.pos + (old.rest().len() - t.len())
+        && t.len() <= old.rest().len()
 }
 
 impl<R> BinaryReader<R> {
@@ -162,8 +212,8 @@ impl<R> BinaryReader<R> {
     pub fn read_u8(&mut self) -> (r: Result<u8>)
         requires old(self)@.wf(),
         ensures
-            r.is_ok() <==> old(self)@.has(1),
-            r.is_ok() ==> final(self)@ == old(self)@.adv(1) && r.unwrap() == old(self)@.take(1)[0],
+            r.is_ok() <==> r_u8(old(self)@.rest()).is_some(),
+            r.is_ok() ==> r_u8(old(self)@.rest()).unwrap().0 == r.unwrap() && rd(old(self)@, final(self)@, r_u8(old(self)@.rest()).unwrap().1),
             final(self)@.bytes == old(self)@.bytes, final(self)@.wf(),
     { unimplemented!() }
 
@@ -171,8 +221,8 @@ impl<R> BinaryReader<R> {
     pub fn read_bool(&mut self) -> (r: Result<bool>)
         requires old(self)@.wf(),
         ensures
-            r.is_ok() <==> old(self)@.has(1),
-            r.is_ok() ==> final(self)@ == old(self)@.adv(1) && r.unwrap() == (old(self)@.take(1)[0] > 0),
+            r.is_ok() <==> r_bool(old(self)@.rest()).is_some(),
+            r.is_ok() ==> r_bool(old(self)@.rest()).unwrap().0 == r.unwrap() && rd(old(self)@, final(self)@, r_bool(old(self)@.rest()).unwrap().1),
             final(self)@.bytes == old(self)@.bytes, final(self)@.wf(),
     { unimplemented!() }
 
@@ -180,8 +230,8 @@ impl<R> BinaryReader<R> {
     pub fn read_u16(&mut self) -> (r: Result<u16>)
         requires old(self)@.wf(),
         ensures
-            r.is_ok() <==> old(self)@.has(2),
-            r.is_ok() ==> final(self)@ == old(self)@.adv(2) && r.unwrap() == de16(old(self)@.take(2)),
+            r.is_ok() <==> r_u16(old(self)@.rest()).is_some(),
+            r.is_ok() ==> r_u16(old(self)@.rest()).unwrap().0 == r.unwrap() && rd(old(self)@, final(self)@, r_u16(old(self)@.rest()).unwrap().1),
             final(self)@.bytes == old(self)@.bytes, final(self)@.wf(),
     { unimplemented!() }
 
@@ -189,8 +239,8 @@ impl<R> BinaryReader<R> {
     pub fn read_u32(&mut self) -> (r: Result<u32>)
         requires old(self)@.wf(),
         ensures
-            r.is_ok() <==> old(self)@.has(4),
-            r.is_ok() ==> final(self)@ == old(self)@.adv(4) && r.unwrap() == de32(old(self)@.take(4)),
+            r.is_ok() <==> r_u32(old(self)@.rest()).is_some(),
+            r.is_ok() ==> r_u32(old(self)@.rest()).unwrap().0 == r.unwrap() && rd(old(self)@, final(self)@, r_u32(old(self)@.rest()).unwrap().1),
             final(self)@.bytes == old(self)@.bytes, final(self)@.wf(),
     { unimplemented!() }
 
@@ -198,8 +248,8 @@ impl<R> BinaryReader<R> {
     pub fn read_u64(&mut self) -> (r: Result<u64>)
         requires old(self)@.wf(),
         ensures
-            r.is_ok() <==> old(self)@.has(8),
-            r.is_ok() ==> final(self)@ == old(self)@.adv(8) && r.unwrap() == de64(old(self)@.take(8)),
+            r.is_ok() <==> r_u64(old(self)@.rest()).is_some(),
+            r.is_ok() ==> r_u64(old(self)@.rest()).unwrap().0 == r.unwrap() && rd(old(self)@, final(self)@, r_u64(old(self)@.rest()).unwrap().1),
             final(self)@.bytes == old(self)@.bytes, final(self)@.wf(),
     { unimplemented!() }
 
@@ -207,8 +257,8 @@ impl<R> BinaryReader<R> {
     pub fn read_i64(&mut self) -> (r: Result<i64>)
         requires old(self)@.wf(),
         ensures
-            r.is_ok() <==> old(self)@.has(8),
-            r.is_ok() ==> final(self)@ == old(self)@.adv(8) && r.unwrap() == de64(old(self)@.take(8)) as i64,
+            r.is_ok() <==> r_i64(old(self)@.rest()).is_some(),
+            r.is_ok() ==> r_i64(old(self)@.rest()).unwrap().0 == r.unwrap() && rd(old(self)@, final(self)@, r_i64(old(self)@.rest()).unwrap().1),
             final(self)@.bytes == old(self)@.bytes, final(self)@.wf(),
     { unimplemented!() }
 
@@ -217,8 +267,9 @@ impl<R> BinaryReader<R> {
     pub fn read_bytes(&mut self, length: usize) -> (r: Result<Vec<u8>>)
         requires old(self)@.wf(),
         ensures
-            r.is_ok() <==> (length <= MAX_BUFFER_SIZE && old(self)@.has(length as nat)),
-            r.is_ok() ==> final(self)@ == old(self)@.adv(length as nat) && r.unwrap()@ == old(self)@.take(length as nat),
+            r.is_ok() <==> r_bytes(old(self)@.rest(), length as nat).is_some(),
+            r.is_ok() ==> r_bytes(old(self)@.rest(), length as nat).unwrap().0 == r.unwrap()@ && r.unwrap()@.len() == length
+                && rd(old(self)@, final(self)@, r_bytes(old(self)@.rest(), length as nat).unwrap().1),
             final(self)@.bytes == old(self)@.bytes, final(self)@.wf(),
     { unimplemented!() }
 
@@ -227,16 +278,8 @@ impl<R> BinaryReader<R> {
     pub fn read_string(&mut self) -> (r: Result<String>)
         requires old(self)@.wf(),
         ensures
-            r.is_ok() <==> ({
-                let s = old(self)@;
-                let n = de32(s.take(4)) as nat;
-                s.has(4) && n <= MAX_BUFFER_SIZE && s.adv(4).has(n) && utf8_dec(s.adv(4).take(n)).is_some()
-            }),
-            r.is_ok() ==> ({
-                let s = old(self)@;
-                let n = de32(s.take(4)) as nat;
-                final(self)@ == s.adv(4 + n) && Some(r.unwrap()@) == utf8_dec(s.adv(4).take(n))
-            }),
+            r.is_ok() <==> r_string(old(self)@.rest()).is_some(),
+            r.is_ok() ==> r_string(old(self)@.rest()).unwrap().0 == r.unwrap()@ && rd(old(self)@, final(self)@, r_string(old(self)@.rest()).unwrap().1),
             final(self)@.bytes == old(self)@.bytes, final(self)@.wf(),
     { unimplemented!() }
 }
@@ -261,12 +304,34 @@ pub trait Encodable {
 pub trait Decodable {
     type DV;
     spec fn dview(&self) -> Self::DV;
-    spec fn dec_of(s: Seq<u8>) -> Option<(Self::DV, nat)>;
+    /// decoding function on the unread input: (value view, input left unread)
+    spec fn dec_of(s: Seq<u8>) -> Option<(Self::DV, Seq<u8>)>;
+    /// what `decode` needs of the receiver before the call (Vec<T> appends)
+    spec fn dec_ready(&self) -> bool;
 
     fn decode<R: AsyncRead + AsyncSeek + Unpin + Send>(&mut self, reader: &mut BinaryReader<R>) -> (r: Result<()>)
-        requires old(reader)@.wf(),
+        requires old(reader)@.wf(), old(self).dec_ready(),
         ensures
             final(reader)@.wf(), final(reader)@.bytes == old(reader)@.bytes,
             r.is_ok() <==> Self::dec_of(old(reader)@.rest()).is_some(), /*@TL:Decodable::decode:decode_accepts_exactly_dec_fn*/
-            r.is_ok() ==> Self::dec_of(old(reader)@.rest()) == Some((final(self).dview(), (final(reader)@.pos - old(reader)@.pos) as nat)); /*@TL:Decodable::decode:decode_value_is_dec_fn*/
+            r.is_ok() ==> Self::dec_of(old(reader)@.rest()).unwrap().0 == final(self).dview() /*@TL:Decodable::decode:decode_value_is_dec_fn*/
+                && rd(old(reader)@, final(reader)@, Self::dec_of(old(reader)@.rest()).unwrap().1);
 }
+
+pub broadcast proof fn lemma_wr_wr(s: Stream, a: Seq<u8>, b: Seq<u8>)
+    requires s.wf(),
+    ensures #[trigger] wr(wr(s, a), b) == wr(s, a + b),
+{
+    assert(wr(wr(s, a), b).bytes =~= wr(s, a + b).bytes);
+}
+
+/// back-patching: overwriting the first |a| bytes of what was just written
+pub proof fn lemma_backpatch(s: Stream, a: Seq<u8>, b: Seq<u8>, a2: Seq<u8>)
+    requires s.wf(), a.len() == a2.len(),
+    ensures
+        wr(Stream { bytes: wr(s, a + b).bytes, pos: s.pos }, a2).bytes == wr(s, a2 + b).bytes,
+{
+    assert(wr(Stream { bytes: wr(s, a + b).bytes, pos: s.pos }, a2).bytes =~= wr(s, a2 + b).bytes);
+}
+
+pub broadcast group group_binary_stream { lemma_take_n_concat, lemma_wr_wr, axiom_utf8_roundtrip, axiom_utf8_dec_sound }
